@@ -508,6 +508,72 @@ func c02exact(c *Ctx) {
 	}
 	r.Floor("EXACT-CMP", "exact quantity comparisons seen in package core (the scan is alive)", nExact, 10)
 
+	r.Rule("MEMO(version tests are equalities): in package elasticquota/core every comparison that involves QuotaInfo.RuntimeVersion or a calculator's globalRuntimeVersion / getVersion() is == or != (a parent's calculator is replaced on re-creation and its counter restarts: 'at least as new' keeps a child's stale runtime until the new counter catches up)")
+	nVer := 0
+	for _, fn := range c.PkgFuncs(quotaCorePkg) {
+		nIn := 0
+		for _, b := range fn.Blocks {
+			for _, in := range b.Instrs {
+				bo, ok := in.(*ssa.BinOp)
+				if !ok {
+					continue
+				}
+				switch bo.Op {
+				case token.EQL, token.NEQ, token.LSS, token.LEQ, token.GTR, token.GEQ:
+				default:
+					continue
+				}
+				isVer := func(v ssa.Value) bool {
+					p := an.Path(v)
+					return strings.HasSuffix(p, ".RuntimeVersion") || strings.HasSuffix(p, ".globalRuntimeVersion") || strings.Contains(p, "getVersion(")
+				}
+				if !isVer(bo.X) && !isVer(bo.Y) {
+					continue
+				}
+				nVer++
+				nIn++
+				r.Check(bo.Op == token.EQL || bo.Op == token.NEQ, "MEMO", sprintf("%s/version-test#%d", fkey(fn), nIn), c.InstrPos(bo), "compared for (in)equality", "a runtime version is compared by order ("+bo.Op.String()+"): versions of different calculators are not ordered, a stale runtime survives the re-creation of the parent")
+			}
+		}
+	}
+	r.Floor("MEMO", "runtime version tests", nVer, 2)
+
+	r.Rule("ORDER(store before its consumer): wherever a function of package core assigns CalculateInfo.Guaranteed (resp. Request) of a group and also calls the parent calculator's needUpdateOneGroupGuaranteed/updateOneGroupGuaranteed (resp. ...Request) for that group, the assignment precedes the call on every path (the calculator reads the field: fed before the store, it keeps the old guarantee and nothing heals it until the next allocation change)")
+	nOrd := 0
+	for _, fn := range c.PkgFuncs(quotaCorePkg) {
+		for _, t := range []struct{ field, consumer string }{{"Guaranteed", "OneGroupGuaranteed"}, {"Request", "OneGroupRequest"}} {
+			var stores []*ssa.Store
+			for _, b := range fn.Blocks {
+				for _, in := range b.Instrs {
+					if st, ok := in.(*ssa.Store); ok {
+						if o, f, _, ok := an.FieldOf(st.Addr); ok && f == t.field && strings.HasSuffix(o, "QuotaCalculateInfo") {
+							stores = append(stores, st)
+						}
+					}
+				}
+			}
+			if len(stores) == 0 {
+				continue
+			}
+			for _, cl := range an.Calls(fn, false) {
+				sn := an.ShortCallee(cl.Common())
+				if !strings.HasSuffix(sn, t.consumer) || cl.Common().StaticCallee() == nil || cl.Common().StaticCallee().Signature.Recv() == nil || !isNamedType(cl.Common().StaticCallee().Signature.Recv().Type(), "RuntimeQuotaCalculator") {
+					continue
+				}
+				q := cl.Common().Args[1]
+				for _, st := range stores {
+					_, _, base, _ := an.FieldOf(st.Addr)
+					if !sameVal(rootOf(base), q) && firstSource(rootOf(base)) != firstSource(q) {
+						continue
+					}
+					nOrd++
+					r.Check(mustPass(st, cl), "ORDER", sprintf("%s/%s-stored-before-%s", fkey(fn), t.field, sn), c.InstrPos(cl), "the field is assigned before the calculator reads it", "the parent calculator is fed ("+sn+") before CalculateInfo."+t.field+" of the group is assigned on some path: it computes with the previous value")
+				}
+			}
+		}
+	}
+	r.Floor("ORDER", "store/consumer pairs", nOrd, 3)
+
 	r.Rule("SCALE(only short dimensions): in ScaleMinQuotaManager.getScaledMinQuota every entry written into the returned scaled minimum is keyed by an element of a list whose every append is guarded by total.Cmp(children's min sum) < 0 for the appended dimension (a dimension with head-room keeps its declared min; rescaling it would blow the minimum up to the whole total)")
 	if fn := c.Fn(quotaCorePkg, "ScaleMinQuotaManager", "getScaledMinQuota"); fn != nil {
 		key := fkey(fn) + "/only-short-dimensions"
